@@ -66,6 +66,12 @@ func main() {
 	case "c16worker": // C16 protocol-level event time, one case per process (c16_proto.go)
 		c16WorkerMain()
 		return
+	case "c12kworker": // C12 selection / percentile / RED kernels in a child process (c12_trace.go)
+		c12kWorkerMain()
+		return
+	case "c12worker": // C12 trace views end to end, one dataset per process (c12_e2e.go)
+		c12WorkerMain()
+		return
 	case "c11worker": // C11 deterministic schedule replay, one schedule per process (c11_conc.go)
 		c11WorkerMain()
 		return
